@@ -325,6 +325,37 @@ type extractCfg struct {
 
 type recordedRange struct{ lo, hi int64 } // [lo, hi]
 
+// dribbleWriter hands the body to the connection in pieces, flushing after each: the first 96 bytes 16 at a time
+// (even a small directory arrives in several reads), the rest 509 at a time
+type dribbleWriter struct {
+	http.ResponseWriter
+	sent int
+}
+
+func (d *dribbleWriter) Write(p []byte) (int, error) {
+	n := 0
+	for len(p) > 0 {
+		k := 509
+		if d.sent < 96 {
+			k = 16
+		}
+		d.sent += k
+		if k > len(p) {
+			k = len(p)
+		}
+		m, err := d.ResponseWriter.Write(p[:k])
+		n += m
+		if err != nil {
+			return n, err
+		}
+		if f, ok := d.ResponseWriter.(http.Flusher); ok {
+			f.Flush()
+		}
+		p = p[k:]
+	}
+	return n, nil
+}
+
 func runExtract(src []byte, minz, maxz int8, bbox string, cfg extractCfg) ([]byte, []recordedRange, error) {
 	path := scratchFile(".pmtiles")
 	if cfg.cut > 0 && cfg.cut < len(src) {
@@ -397,7 +428,9 @@ func runExtract(src []byte, minz, maxz int8, bbox string, cfg extractCfg) ([]byt
 					return
 				}
 			}
-			http.ServeContent(w, r, "a.pmtiles", time.Unix(0, 0), bytes.NewReader(src))
+			// bodies arrive in small pieces, as they do over a real network: one Read of the client never
+			// returns a whole directory
+			http.ServeContent(&dribbleWriter{ResponseWriter: w}, r, "a.pmtiles", time.Unix(0, 0), bytes.NewReader(src))
 		}))
 		defer srv.Close()
 		key = srv.URL + "/a.pmtiles"
@@ -586,6 +619,13 @@ func (C07) Gen(r *core.Rng, tier string, emit func(string)) {
 		if r.Bool() {
 			maxz = int8(r.Intn(8)) // 0 included: "only the top of the pyramid" is a request, not "no limit"
 		}
+		if i < 8 {
+			// the boundary value of each zoom option, given explicitly, on a source that has a zoom-0 tile and more
+			for tries := 0; tries < 60 && (len(ts.entries) < 3 || ts.entries[0].TileID != 0 || ba.header.MaxZoom == 0); tries++ {
+				ba, ts, ic = randClusteredSource(r)
+			}
+			minz, maxz = []int8{-1, 0, 0, -1}[i%4], []int8{0, 0, -1, 0}[i%4]
+		}
 		bbox := "-"
 		if r.Chance(1, 2) {
 			w, s := -170+r.Intn(300), -70+r.Intn(120)
@@ -714,7 +754,7 @@ func c07ViaCLI(line string) bool {
 	if i := strings.LastIndex(line, " # "); i >= 0 {
 		f := strings.Fields(line[i+3:])
 		if len(f) >= 2 && (f[0] == "0" || f[1] == "0") {
-			return h%2 == 0
+			return f[1] == "0" || h%2 == 0
 		}
 	}
 	return false
